@@ -60,13 +60,17 @@ func sweepTable(name string, f func(string) ([]rune, bool)) (string, int) {
 	return b.String(), n
 }
 
-func cmdTables(outDir string) {
-	var b strings.Builder
-	b.WriteString("(* GENERATED from /repo on every run by `p2h tables` - do not edit. *)\n")
-	b.WriteString("From P2 Require Import Base.Prelude.\nLocal Open Scope N_scope.\n\n")
-	b.WriteString("(* jsonExporter.String on every one-rune string: exceptions to the identity *)\n")
-	js, _ := sweepTable("json_tbl", jsonEscapeOf)
-	b.WriteString(js)
-	writeIfChanged(filepath.Join(outDir, "Escapes.v"), b.String())
-	writeExtraTables(outDir)
+const genHeader = "(* GENERATED from /repo on every run by `p2h tables` - do not edit. *)\nFrom P2 Require Import Base.Prelude.\nLocal Open Scope N_scope.\n\n"
+
+func init() {
+	registerTables(func(outDir string) {
+		var b strings.Builder
+		b.WriteString(genHeader)
+		b.WriteString("(* jsonExporter.String on every one-rune string: exceptions to the identity *)\n")
+		js, _ := sweepTable("json_tbl", jsonEscapeOf)
+		b.WriteString(js)
+		writeIfChanged(filepath.Join(outDir, "Escapes.v"), b.String())
+	})
 }
+
+func cmdTables(outDir string) { writeExtraTables(outDir) }
